@@ -54,6 +54,7 @@ type caseRun struct {
 	dir       string
 	opts      *nsqd.Options
 	d         *nsqd.NSQD
+	pre       *nsqd.NSQD // started early (see startDaemon)
 	httpAddr  string
 	tcpAddr   string
 	pub       *rawClient
@@ -120,7 +121,12 @@ func (cr *caseRun) now() int64   { return time.Now().UnixNano() }
 
 func (cr *caseRun) startDaemon() {
 	var err error
-	cr.d, err = nsqdlib.StartLikeMain(cr.opts)
+	if cr.pre != nil {
+		// a replacement that could be started while the old daemon was still exiting
+		cr.d, cr.pre = cr.pre, nil
+	} else {
+		cr.d, err = nsqdlib.StartLikeMain(cr.opts)
+	}
 	if err != nil {
 		lib.Fatalf("start nsqd: %v", err)
 	}
